@@ -289,6 +289,6 @@ theorem acyclic_of_sorted {g : G} (hc : ClosedGraph g) {l : List Id} (h : sortFr
   · rw [hc.wip] at ha; simp at ha
 
 theorem sorted_of_acyclic {g : G} (hc : ClosedGraph g) (hac : Acyclic g) : ∃ l, sortFrom g [] = some l :=
-  sortFrom_progress g [] hac (fun e he => Or.inr (by simpa using hc.src e he))
+  sortFrom_progress g [] hac (fun e he _ => Or.inr (by simpa using hc.src e he))
 
 end PydraModel.Sched
